@@ -99,7 +99,7 @@ func main() {
 	nComp, nDBSmall, nDB := 10000, 320, 120
 	nErr, kErr := 8000, 320 // error / release walks on component iterators behind fuses
 	kComp, kDB := 400, 240
-	kBytes, kBytesMax := 16, 6000 // byte-level (K) states per run (one per worker), max bytes of a state
+	kBytes, kBytesMax := 32, 8000 // byte-level (K) states per run (one per worker), max bytes of a state
 	maxMoves := 200
 	if a.Thorough() {
 		nComp, nDBSmall, nDB = 400000, 6000, 3000
